@@ -544,6 +544,12 @@ func expandRequestData(testCase *conformancev1.TestCase) error {
 				padding := make([]byte, delta)
 				bytesVal = append(bytesVal, padding...)
 			} else {
+				if -delta > int64(len(bytesVal)) {
+					// Not enough data to remove: the message is larger than the
+					// requested size even without any padding.
+					return fmt.Errorf("request message #%d: can't shrink to exactly %d bytes; message has %d bytes, only %d of which are request data",
+						i+1, totalSize, size, len(bytesVal))
+				}
 				bytesVal = bytesVal[:len(bytesVal)+int(delta)]
 			}
 			reflectReq.Set(field, protoreflect.ValueOfBytes(bytesVal))
